@@ -54,18 +54,27 @@ impl<C: CellType> BcInterpreter<C> {
         let mut insts = Vec::new();
         for &inst in &self.bytecode.insts {
             inst_start.push(insts.len());
+            let mut skip_branch = None;
             if limited {
                 if let Instr::BrZ(_, _) | Instr::BrNZ(_, _) = inst {
                     emit_limit(&mut insts, 1);
                 }
-                if let Instr::Scan(_, shift) = inst {
+                if let Instr::Scan(cond, shift) = inst {
                     if shift == 0 {
+                        // A stationary scan never ends once entered. Only charge the
+                        // complete budget if it is entered, otherwise skip it.
+                        skip_branch = Some(insts.len());
+                        emit(&mut insts, Instr::BrZ(cond, 0), safe);
                         emit_limit(&mut insts, usize::MAX);
                     }
                 }
             }
             inst_offset.push(insts.len());
             emit(&mut insts, inst, safe);
+            if let Some(branch_at) = skip_branch {
+                let offset = (insts.len() - branch_at) as isize;
+                adjust_branch(&mut insts[branch_at..], offset);
+            }
         }
         inst_start.push(insts.len());
         inst_offset.push(insts.len());
